@@ -371,6 +371,48 @@ def rule_R13_for_tuple_tail(text: str, counts: dict) -> str:
         counts["R13"] = counts.get("R13", 0) + 1
 
 
+def rule_R14_iter_rev(text: str, counts: dict) -> str:
+    """R14: `for X in E.iter().rev() {` -> `let vrx__N = &E;` (or `= E;` when E is a call) `let mut vrix__N = vrx__N.len();
+    while vrix__N > 0 { vrix__N -= 1; let X = &vrx__N[vrix__N];` for a place or accessor-call expression E
+    naming a Vec/slice: same elements by reference, last to first.  (E is evaluated once, as in the
+    original.)"""
+    n = 0
+    while True:
+        toks = rustlex.lex(text)
+        sig = [i for i, t in enumerate(toks) if t.kind not in ("ws", "comment", "doc")]
+        hit = None
+        for p, i in enumerate(sig):
+            if toks[i].kind == "ident" and toks[i].text == "for" and p + 4 < len(sig):
+                if toks[sig[p + 1]].kind == "ident" and toks[sig[p + 2]].text == "in":
+                    q = p + 3
+                    # scan forward to `{` at depth 0, collecting tokens
+                    expr = []
+                    depth = 0
+                    while q < len(sig):
+                        tt = toks[sig[q]].text
+                        if tt == "{" and depth == 0:
+                            break
+                        if tt in ("(", "["):
+                            depth += 1
+                        if tt in (")", "]"):
+                            depth -= 1
+                        expr.append(tt)
+                        q += 1
+                    if q < len(sig) and len(expr) > 8 and expr[-8:] == [".", "iter", "(", ")", ".", "rev", "(", ")"]:
+                        e = expr[:-8]
+                        if all(re.fullmatch(r"[A-Za-z_][A-Za-z0-9_]*|\.|\(|\)", x) for x in e):
+                            hit = (toks[i].start, toks[sig[q]].end, toks[sig[p + 1]].text, "".join(e))
+                            break
+        if not hit:
+            return text
+        a, b, xvar, e = hit
+        n += 1
+        bind = f"let vrx__{n} = {e};" if e.endswith(")") else f"let vrx__{n} = &{e};"
+        nl = text[a:b].count("\n")
+        text = text[:a] + f"{bind} let mut vrix__{n} = vrx__{n}.len(); while vrix__{n} > 0 {{ vrix__{n} -= 1; let {xvar} = &vrx__{n}[vrix__{n}];" + "\n" * nl + text[b:]
+        counts["R14"] = counts.get("R14", 0) + 1
+
+
 def keep_attr(a: str) -> bool:
     return False
 
@@ -624,6 +666,7 @@ class UnitBuilder:
             text = rule_R11_enumerate(text, self.counts)
             text = rule_R12_for_ref(text, self.counts)
             text = rule_R13_for_tuple_tail(text, self.counts)
+            text = rule_R14_iter_rev(text, self.counts)
         for rule, frm, to in self.spec.rewrites:
             text = rule_R3_token_replace(text, frm, to, rule, self.counts)
         # R4 on the full item text (attributes before decl were already excluded by using it.decl)
